@@ -263,4 +263,5 @@ func (e *engine) runC39() {
 			e.keyFileCase(c, r%2 == 0)
 		}
 	}
+	e.runC39Callers(cases, k)
 }
